@@ -46,7 +46,7 @@ def hdlKey (o : HObs) : String :=
 
 /-! ### request parsing -/
 
-inductive GenSpec | absent | fail | zero | for_ (d : Int) | until_ (off zone : Int) | odd (d : Int)
+inductive GenSpec | absent | fail | zero | for_ (d : Int) | until_ (off zone : Int) | untilAbs (sec zone : Int) | odd (d : Int)
   deriving Repr, BEq
 
 inductive LSpec | T (tag : String) | M | D (allow : Bool) (g : GenSpec)
@@ -69,6 +69,7 @@ def parseGen (s : String) : Option GenSpec :=
   | ['z'] => some .zero
   | 'f' :: r => (String.ofList r).toInt?.map .for_
   | 'u' :: r => (parseOffZone (String.ofList r)).map (fun oz => .until_ oz.1 oz.2)
+  | 'U' :: r => (parseOffZone (String.ofList r)).map (fun oz => .untilAbs oz.1 oz.2)
   | 'o' :: r => (String.ofList r).toInt?.map .odd
   | _ => none
 
@@ -110,7 +111,7 @@ def valTok : Option Val → String
   | some (.time n) => s!"t{n}"
   | some (.timeIn n z) => s!"t{n}@{z}"
 
-inductive CtxSpec | none | zero | for_ (d : Int) | until_ (off zone : Int)
+inductive CtxSpec | none | zero | for_ (d : Int) | until_ (off zone : Int) | untilAbs (sec zone : Int)
   deriving Repr, BEq
 
 def parseCtx (s : String) : Option CtxSpec :=
@@ -119,6 +120,7 @@ def parseCtx (s : String) : Option CtxSpec :=
   | ['z'] => some .zero
   | 'f' :: r => (String.ofList r).toInt?.map .for_
   | 'u' :: r => (parseOffZone (String.ofList r)).map (fun oz => .until_ oz.1 oz.2)
+  | 'U' :: r => (parseOffZone (String.ofList r)).map (fun oz => .untilAbs oz.1 oz.2)
   | _ => Option.none
 
 structure MSpec where
@@ -199,6 +201,7 @@ def mkGen (rec : List String) (base : Int) (li : Nat) : GenSpec → Option (Stri
   | .zero => some (fun _ _ => some Delay.zero)
   | .for_ d => some (fun _ m => some (Delay.for (nowOf rec s!"g{li}.{m.id}") d))
   | .until_ off zone => some (fun _ m => some (Delay.untilIn (nowOf rec s!"g{li}.{m.id}") (base + off) zone))
+  | .untilAbs sec zone => some (fun _ m => some (Delay.untilIn (nowOf rec s!"g{li}.{m.id}") (sec * 1000000000) zone))
   | .odd d => some (fun _ m => if m.id % 2 = 1 then none else some (Delay.for (nowOf rec s!"g{li}.{m.id}") d))
 
 def mkPubStack (rec : List String) (base : Int) : Nat → List LSpec → List PubLayer
@@ -222,6 +225,7 @@ def mkMsg (rec : List String) (base : Int) (id : Nat) (s : MSpec) : Msg :=
     | .zero => some Delay.zero
     | .for_ d => some (Delay.for (nowOf rec s!"m{id}") d)
     | .until_ off zone => some (Delay.untilIn (nowOf rec s!"m{id}") (base + off) zone)
+    | .untilAbs sec zone => some (Delay.untilIn (nowOf rec s!"m{id}") (sec * 1000000000) zone)
   { id := id, md := md2, ctxDelay := cd }
 
 def mfind : MD → String → Option Val
@@ -476,7 +480,7 @@ def delayLayers : Nat → List LSpec → List (Nat × Bool × GenSpec)
 
 def genOk (g : GenSpec) (id : Nat) : Bool :=
   match g with
-  | .absent => false | .fail => false | .zero => true | .for_ _ => true | .until_ _ _ => true
+  | .absent => false | .fail => false | .zero => true | .for_ _ => true | .until_ _ _ => true | .untilAbs _ _ => true
   | .odd _ => id % 2 = 0
 
 def genPresent (g : GenSpec) : Bool := match g with | .absent => false | _ => true
@@ -485,6 +489,19 @@ def genPresent (g : GenSpec) : Bool := match g with | .absent => false | _ => tr
     with the clock read somewhere in `[t0, t1]`, 1 s slack on both sides -/
 def agree (w : Win) (forNs untilSec : Int) : Bool :=
   decide ((w.t0 + forNs) / sec1 - 1 ≤ untilSec) && decide (untilSec ≤ (w.t1 + forNs) / sec1 + 1)
+
+/-- delayed-for and delayed-until of an `Until` delay agree: `for = Time.Sub(until, now)` – the distance, SATURATED at the
+    range of `time.Duration` – for a clock reading `now` in the measured window (1 s slack) and the instant anywhere in the
+    second RFC 3339 keeps -/
+def agreeU (w : Win) (forNs untilSec : Int) : Bool :=
+  decide (satDur (untilSec * sec1 - (w.t1 + sec1)) ≤ forNs) && decide (forNs ≤ satDur (untilSec * sec1 + sec1 - (w.t0 - sec1)))
+
+def untilMatches (wantSec : Int) (w : Option Win) (x s : Int) : String :=
+  match w with
+  | some w =>
+    if !agreeU w x s then "agree"                        -- delayed-for and delayed-until describe different delays
+    else if s ≠ wantSec then "source" else ""
+  | none => "agree"
 
 /-- does the observed stamp `(f, u)` match a delay built by For/Until/zero value?  "" = yes; "source" = the component
     that the source fixes exactly (For: the duration, Until: the instant) is not there; "agree" = it is, but
@@ -495,16 +512,12 @@ def stampMatches (kind : CtxSpec) (base : Int) (w : Option Win) (f u : Option Va
   | .zero, some (.dur 0), some s => if s = zeroTimeSec then "" else "source"
   | .for_ d, some (.dur x), some s =>
     if x ≠ d then "source" else (match w with | some w => if agree w x s then "" else "agree" | none => "agree")
-  | .until_ off _, some (.dur x), some s =>
-    match w with
-    | some w =>
-      if !agree w x s then "agree"                        -- delayed-for and delayed-until describe different delays
-      else if s ≠ (base + off) / sec1 then "source" else ""
-    | none => "agree"
+  | .until_ off _, some (.dur x), some s => untilMatches ((base + off) / sec1) w x s
+  | .untilAbs a _, some (.dur x), some s => untilMatches a w x s
   | _, _, _ => "source"
 
 def genAsCtx : GenSpec → CtxSpec
-  | .zero => .zero | .for_ d => .for_ d | .until_ o z => .until_ o z | .odd d => .for_ d | _ => .none
+  | .zero => .zero | .for_ d => .for_ d | .until_ o z => .until_ o z | .untilAbs a z => .untilAbs a z | .odd d => .for_ d | _ => .none
 
 def nonEmpty (v : Option Val) : Bool := match v with | none => false | some (.raw "") => false | some _ => true
 
